@@ -9,6 +9,7 @@
 //                                            "out=<bits> cost=<n> min=<m> omin=<m'> fresh=<same|DIFF>" joined by " | "
 //   x W IN OUT                               all vectors of {-L,0,+L}^IN: "n=<count> h=<hash per block of 729>,.. viol=<k> first=<csv|->"
 //   t W                                      table dump
+//   r W                                      size_t(std::round(m / float(llr_limit<W>()))) against (2m+L)/(2L) for all 0 <= m <= 80000
 #include "M17FrameDecoder.h"
 #include "common.h"
 #include <array>
@@ -215,6 +216,18 @@ static void do_t()
     std::puts(s.c_str());
 }
 
+template <size_t W>
+static void do_r()
+{
+    const long L = detail::llr_limit<W>();
+    unsigned long bad = 0; long first = -1;
+    for (int32_t m = 0; m <= 80000; ++m) {
+        size_t c = std::round(m / float(detail::llr_limit<W>()));
+        if (long(c) != (2 * long(m) + L) / (2 * L)) { if (!bad++) first = m; }
+    }
+    std::printf("rounding L=%ld checked=80001 bad=%lu first=%ld\n", L, bad, first);
+}
+
 #define WIDTHS(X) X(2) X(3) X(4) X(5) X(6)
 
 int main()
@@ -231,7 +244,8 @@ int main()
                 size_t IN = std::stoul(t[2]), OUT = std::stoul(t[3]); \
                 viterbi_t<w> probe(frame_decoder().trellis_); \
                 if (call<w>(probe, IN, OUT, std::vector<int>(IN, 0)).ok) { do_x<w>(IN, OUT); done = true; } } \
-            else if (t[0] == "t") { do_t<w>(); done = true; } }
+            else if (t[0] == "t") { do_t<w>(); done = true; } \
+            else if (t[0] == "r") { do_r<w>(); done = true; } }
         WIDTHS(X)
 #undef X
         if (!done) std::puts("?");
